@@ -69,7 +69,11 @@ fn op_code(op: Op) -> u64 {
     (op.k as u64) | (op.a as u64 & 0xffff) << 8 | (op.b as u64 & 0xffff) << 24 | (op.f as u64 & 0xffff) << 40
 }
 
-fn run_zst<K: Kind<crate::zexec::ZDrop>>(plan: &Plan, st: &mut Stats, fl: &mut Flags, counts: &mut (u32, u32), viol_op: &mut Option<OpK>) {
+fn run_zst<K: Kind<crate::zexec::ZDrop>>(plan: &Plan, st: &mut Stats, fl: &mut Flags, counts: &mut (u32, u32), viol_op: &mut Option<OpK>)
+where
+    crate::zexec::ZExec<K>: crate::zexec::ZStepper,
+{
+    use crate::zexec::ZStepper;
     let mut ex = crate::zexec::ZExec::<K>::new();
     ex.start(st);
     for (i, op) in plan.ops.iter().enumerate() {
@@ -99,6 +103,7 @@ where
     for<'a> VecExec<'a, K, Tok>: Stepper<K, Tok>,
     for<'a> VecExec<'a, K, Wide>: Stepper<K, Wide>,
     for<'a> VecExec<'a, K, tok::Plain>: Stepper<K, tok::Plain>,
+    crate::zexec::ZExec<K>: crate::zexec::ZStepper,
 {
     if plan.elem == 1 {
         st.runs_wide += 1;
